@@ -56,6 +56,11 @@ def cases(tier):
     for l in c03.SCENARIOS + EXTRA + [[a, b] for a, b in itertools.combinations(pool[:8], 2)]:
         for c in COVERAGES[1:]:
             yield l, dict(coverage=c)
+    # the rarely used trainer options: a pre-trained multi-word detector changes the segmentation (and so every tally), --save_sensitive must not
+    for l in c03.SCENARIOS + EXTRA:
+        yield l, dict(coverage=0.6, multiword_words=['pass', 'word', 'love', 'you', 'blue', 'fish', 'abcd', 'test'])
+        yield l, dict(coverage=0.5, save_sensitive=True)
+        yield l, dict(coverage=0.95)
 
 
 def shards(tier):
@@ -141,7 +146,7 @@ def check_file(path, counter, enc, what, extra_total=0.0):
 
 
 def check_ruleset(base, lines, opts, enc='utf-8'):
-    seg, parser = c03.segment(lines)
+    seg, parser = c03.segment(lines, opts.get('multiword_words'))
     t = tally(seg, lines)
     msgs = []
     folders = {'A': 'Alpha', 'C': 'Capitalization', 'D': 'Digits', 'O': 'Other', 'K': 'Keyboard'}
